@@ -20,6 +20,7 @@ type world struct {
 	shared     map[string]bool // tracked struct types
 	entryTypes map[string]bool // receiver types whose exported methods are entry points
 	unmarshal  map[string]bool // names of unmarshal functions ("unmarshalJsonFile", "encoding/json.Unmarshal")
+	marshal    map[string]bool // encoding functions that read their argument by reflection
 
 	decls     map[*types.Func]*ast.FuncDecl
 	declOrder []*types.Func
@@ -39,6 +40,7 @@ type world struct {
 
 type primitive struct {
 	method string // Lock | RLock | Unlock | RUnlock
+	field  string // the mutex field of the receiver that is operated on
 }
 
 func loadWorld(src string) (*world, error) {
